@@ -108,6 +108,12 @@ func TestC29(t *testing.T) {
 		if xfp != "" {
 			hdr = append(hdr, randCase(rt, "X-Forwarded-Port", "xfp")+": "+xfp)
 		}
+		// a client may also try to have BFE's own address headers stripped by nominating them
+		// as hop-by-hop in its Connection header
+		if nom := rapid.SampledFrom([]string{"", "", "", "X-Real-Ip", "x-real-ip, x-real-port", "X-Forwarded-For", "close, X-Real-Ip, X-Real-Port, X-Forwarded-For"}).Draw(rt, "conn-nominates"); nom != "" {
+			hdr = append(hdr, "Connection: "+nom)
+			spoof = true
+		}
 		target := fmt.Sprintf("/c29/%d", n)
 		raw := fmt.Sprintf("GET %s HTTP/1.1\r\nHost: example.org\r\nConnection: close\r\n%s\r\n", target, joinCRLF(hdr))
 		cls := []string{}
